@@ -75,6 +75,14 @@ class OrderedSet(collections.abc.MutableSet):
         other = set(other)
         return OrderedSet([e for e in self if e in other])
 
+    def __xor__(self, other):
+        # order by self, then other (the inherited operator lets another set, e.g. a keys view, answer with a plain set)
+        assert not isinstance(other, str)  # treat string as atomic value, not iterable
+        other = OrderedSet(other)
+        return OrderedSet(
+            [e for e in self if e not in other] + [e for e in other if e not in self]
+        )
+
     def __repr__(self):
         return "OrderedSet([%s])" % (", ".join(map(repr, self.impl.keys())))
 
